@@ -194,8 +194,9 @@ CHECKS = {
          'by token soups, every registered function at arity 0..4 over a 47-value pool under a time limit, and raising / '
          'hostile callbacks.',
     design='7/C01',
-    note='partial: termination and record shape of the ~130 built-in bodies outside the model are observed (sweep with a 4 s '
-         'limit), not proved; bignum work growing with the magnitude of an integer argument (FACT, POWER, 10**digits, PV) is '
+    note='partial: the ~130 built-in bodies outside the model enter the theorems as an arbitrary oracle (host field h_oracle: any '
+         'value, raised error or exception) - the record and driver theorems hold whatever they return, PROVIDED they return; that '
+         'they do return is observed (sweep with a 4 s limit), not proved; bignum work growing with the magnitude of an integer argument (FACT, POWER, 10**digits, PV) is '
          'exercised with magnitudes <= 1e5; ply error recovery on a SyntaxError raised by a host callback is not modelled.',
     technique='Coq proof (potential function certified by vm_compute on the generated LR tables, strong induction on fuel) + ast translator for the wrapper + sweep'),
  'C02': dict(
